@@ -220,7 +220,7 @@ def c18_cases(ctx, binary, root, rnd, n, use_strace=False):
             cwd, args = os.path.join(proj, "contracts", "sub"), ["--path", ".."]
         stale = rnd.random() < 0.6
         if stale:
-            open(os.path.join(cwd, "solstat_report.md"), "w").write("STALE REPORT\n- Fake.sol:1\n" * rnd.randrange(1, 50))
+            open(os.path.join(cwd, "solstat_report.md"), "w").write("STALE REPORT\n- Fake.sol:1\n" * (rnd.randrange(1, 50) if rnd.random() < 0.5 else 40000))
         before = snapshot(d)
         reports = []
         problems = []
